@@ -109,8 +109,10 @@ def replay_worker(args):
         defn, routes, hows = defn_from_dump(header, st)
         rng = random.Random(seed + len(out))
         r = {"hist": st["hist"], "mism": []}
+        warm = om.warmup(defn, keys, rng)
         try:
             m, events, odes = build.build(defn, rng=rng, style=rng.randrange(6), routes=routes, hows=hows,
+                                          on_step=warm,
                                           sform=rng.choice(["list", "space", "comma"]),
                                           pform=rng.choice(["list", "space", "comma"]))
         except Exception as ex:
